@@ -66,7 +66,7 @@ def step (s : St) (ws : List String) : St × String :=
       ({ nkeys := n, prices := p, maxUnits := m, target := t, cap := cap, parentHeight := ph, minEmptyGap := mg }, "ok")
     | _, _, _, _, _, _, _ => (s, "bad-op")
   | "parent" :: kvs =>
-    match allSome (kvs.map (parseKV "=")) with
+    match allSome (kvs.map (parseKVal "=")) with
     | some l => ({ s with parent := l }, "ok")
     | none => (s, "bad-op")
   | ["mtx", id, sp, pre, units, keys, prog, size, dup] =>
